@@ -291,6 +291,17 @@ def handle (j : Json) : Except String Json := do
         | some cuts => respond .ok [("r", jarr (jarr jstr) cuts)]
         | none => respond .fuel [])
     | _ => throw s!"unknown query {q}"
+  | "dimacs" =>
+    let c ← circuitOfJson (← j.getObjVal? "c")
+    let as ← (← (← j.getObjVal? "assumptions").getArr?).toList.mapM (fun x => do
+      let p ← x.getArr?
+      pure ((← p[0]!.getStr?), (← p[1]!.getBool?)))
+    let sp := match j.getObjVal? "startpoints" with
+      | .ok v => (match getStrList v with | .ok l => l | .error _ => ord c.startpointsAll)
+      | .error _ => ord c.startpointsAll
+    match dimacs c ord as sp with
+    | .ok t => pure (respond .ok [("text", jstr t)])
+    | .error e => pure (respond e [])
   | "ord" =>
     pure (respond .ok [("r", jarr jstr (ord (getStrListD j "l")))])
   | _ => throw s!"unknown op {op}"
